@@ -1069,7 +1069,9 @@ class CDSInterval(AbstractFeatureInterval):
         if new_loc.is_empty:
             raise EmptyLocationException("Variant incorporation led to an EmptyLocation")
         fn = CDSInterval.from_chunk_relative_location if self.is_chunk_relative else CDSInterval.from_location
-        new_frames = CDSInterval.construct_frames_from_location(new_loc, self.frames[0])
+        # frames are stored in plus strand order; the frame that starts translation belongs to the 5' most block
+        starting_frame = self.frames[-1] if self.strand == Strand.MINUS else self.frames[0]
+        new_frames = CDSInterval.construct_frames_from_location(new_loc, starting_frame)
         return fn(
             new_loc,
             cds_frames=new_frames,
